@@ -101,7 +101,7 @@ pub fn run_val_family(ctx: &Ctx, fam: &ValFamily) -> Stats {
             if fw::should_stop() {
                 return;
             }
-            let fillers: &[usize] = if len % 2 == 0 { &[0, 1, 2, 3] } else { &[0] };
+            let fillers: &[usize] = if len % 2 == 0 { &[0, 1, 2, 3, 4] } else { &[0, 5] };
             for &fk in fillers {
                 for cls in 0..=ncls {
                     let positions: Vec<usize> = if cls == ncls { vec![0] } else { (0..len.max(1)).collect() };
@@ -200,7 +200,7 @@ pub fn run_val_family(ctx: &Ctx, fam: &ValFamily) -> Stats {
             if fw::should_stop() {
                 return;
             }
-            let fk = if li % 5 == 4 { 1 + li % 3 } else { 0 };
+            let fk = if li % 5 == 4 { 1 + li % 3 } else { [0usize, 4, 5][li % 3] };
             for cls in 0..=ncls {
                 let positions: Vec<usize> = if cls == ncls { vec![0] } else { long_positions(len) };
                 for pos in positions {
